@@ -650,7 +650,7 @@ macro_rules! perp_world {
                     if r.chance(1, 4) { self.px = (self.px as i64 + r.below(21) as i64 - 10).max(2) as u64; }
                     let pr = self.price_str(r);
                     let open: Vec<(u64, &P)> = s.ps.iter().filter(|(_, p)| p.size_in_usd != 0 || p.collateral_token_amount != 0).map(|(k, p)| (*k, p)).collect();
-                    let pick = r.below(10);
+                    let pick = r.below(12);
                     if self.roundtrip && (r.chance(1, 2) || self.left == 0) {
                         // open a fresh position and close it at once at unchanged prices, no time in between (C10); the other
                         // half of the operations of a round-trip history is the ordinary mix below, so that the pairs run on
@@ -734,10 +734,38 @@ macro_rules! perp_world {
                                     format!("perp swap {sid} {} {} {pr}", il as u8, if il { v / self.px.max(1) as $U } else { v }) }
                             })
                         }
+                        8 if !open.is_empty() => {
+                            // collateral-only operations (size delta 0) in a row on ONE position, preferably of the side that
+                            // receives funding (the lighter side) once claimable funding has accrued: every one of them settles
+                            // the pending funding and must refresh the snapshots, so the next one pays / claims nothing
+                            let tot = |q: TestPool<$U>| q.long_amount.saturating_add(q.short_amount);
+                            let recv_long = tot(s.m.open_interest.0) < tot(s.m.open_interest.1);
+                            let pref: Vec<&(u64, &P)> = open.iter().filter(|(_, p)| p.is_long == recv_long && p.size_in_usd != 0).collect();
+                            let (pid, p) = if !pref.is_empty() && r.chance(3, 4) { **r.pick(&pref) } else { open[r.below(open.len() as u64) as usize] };
+                            let unit = (if p.is_collateral_token_long { 1_000_000u64 / self.px.max(1) } else { 1_000_000 }).max(1);
+                            let (c1, c2, wd) = ((unit * r.range(1, 50)) as $U, (unit * r.below(50)) as $U, (unit * r.below(20)) as $U);
+                            self.pending = vec![format!("perp dec {sid} {pid} 0 {wd} 0 0 0 {pr}"), format!("perp inc {sid} {pid} {c2} 0 {pr}")];
+                            if r.chance(1, 2) { self.pending.push(format!("perp dec {sid} {pid} 0 {wd} 0 0 0 {pr}")); }
+                            Some(format!("perp inc {sid} {pid} {c1} 0 {pr}"))
+                        }
                         _ => {
-                            let secs = *r.pick(&[0u64, 1, 60, 3600, 86400, 30 * 86400]);
-                            self.pending = vec![format!("perp ufund {sid} {pr}"), format!("perp ubor {sid} {pr}"), format!("perp dist {sid}")];
-                            Some(format!("perp tick {sid} {secs}"))
+                            let secs = *r.pick(&[0u64, 1, 60, 3600, 3600, 86400, 86400, 30 * 86400]);
+                            self.pending = vec![format!("perp ufund {sid} {pr}"), format!("perp ubor {sid} {pr}"), format!("perp dist {sid}"), format!("perp tick {sid} {secs}")];
+                            // funding only flows when BOTH sides have open interest: if one side is empty, someone opens a position
+                            // there before the time passes (3 of 4 times)
+                            let tot = |q: TestPool<$U>| q.long_amount.saturating_add(q.short_amount);
+                            let (ol, os) = (tot(s.m.open_interest.0), tot(s.m.open_interest.1));
+                            if (ol == 0 || os == 0) && r.chance(3, 4) {
+                                let il = ol == 0 && (os != 0 || r.chance(1, 2));
+                                let pid = self.next_pid; self.next_pid += 1;
+                                let cl = r.chance(1, 2);
+                                let size = (*r.pick(&[1_000_000_000u64, 20_000_000_000, 500_000_000_000]) + r.below(1_000_000_000)) as $U * SCALE;
+                                let cval = (size / SCALE) as u64 / (2 + r.below(6));
+                                let c = (if cl { cval / self.px.max(1) } else { cval }) as $U;
+                                self.pending.push(format!("perp inc {sid} {pid} {c} {size} {pr}"));
+                                return Some(format!("perp open {sid} {pid} {} {}", il as u8, cl as u8));
+                            }
+                            self.pending.pop()
                         }
                     }
                 }
